@@ -75,6 +75,14 @@ def plain_hostname(h):
     return bool(h) and not h.startswith(".") and not h.endswith(".") and not re.search(r"\.[0-9]+\Z", h)
 
 
+HDR_TEXTS = [
+    "flag", "flag; Path=/x", "sid=1", "sid=", 'q="a b"', 'q="a\\"b"', 'q="x;y"; Path=/', "a=1, b=2; Path=/x", "a=1,b=2",
+    "k=v; Expires=Thu, 01-Jan-1970 00:00:00 GMT, m=n", " lead=1", "t=1;", "t=1; ; Path=/", "=v", "e==", "sid=1; Domain", "u=1; Max-Age=0",
+    "flag; Max-Age=0", "sid; Max-Age=0", "x=a b", "x=a\tb", "y=a\\b", "sid=2; Domain=.example.com; Path=/x", "flag; Domain=.example.com",
+    "z=1; Expires=Thursday, 01-Jan-70 00:00:00 GMT", "z=2; Expires=0; Path=/x", "", ";", "w", "w=; Path", 'v="unterminated',
+]
+
+
 class FrozenTime:
     @staticmethod
     def time(): return float(NOW)
@@ -125,11 +133,14 @@ class Check(PropertyCheck):
                   "the Cookie header of every request; frozen clock), exhaustive host x domain / path x path pairs, int() strings. New: attached_only_if_spec_match_hdr / "
                   "jar_is_last_write_hdr — the same for histories given by the TEXT of the Set-Cookie headers: the tokenizer "
                   "(_read_set_cookie_pairs / parse_set_cookie_header, the transcription C34 maintains, after fixes e0e81be4a / "
-                  "8cc872297) is inside the model, and the tie now hands the model the header text (driver op hresp).")
+                  "8cc872297) is inside the model, and the tie now hands the model the header text (driver op hresp). Cookie values "
+                  "are Option-valued (None for a bare name) and the request's Cookie header is C34's _format_pairs transcription.")
     level_note = ("trusted: Lean kernel; differential tie; email.utils date parsing is the only parameter of a response (a function Expires-value -> timestamp; the theorems hold "
                   "for every such function); the Set-Cookie tokeniser is transcribed (Model/C34, imported) and tied here by hresp "
-                  "and in C34 by its own op; a cookie NAME without '=value' (Python value None) is represented with the empty value "
-                  "and not generated; the harness also checks on every response that the real tokeniser delivers the cookies sent; the flow filter is the "
+                  "and in C34 by its own op; a cookie NAME without '=value' has value none in the model as in Python (Cookie.value : Option) and "
+                  "the Cookie header is rendered by C34's transcription of _format_pairs (quoting of special values): both are tied by "
+                  "the header-text case kind 'hdr' (value-less names, quoted/special values, several cookies per header, odd "
+                  "tokens), whose oracle only rejects a raising hook — it is a transcription tie, like the 'int' kind; the harness also checks on every response that the real tokeniser delivers the cookies sent; the flow filter is the "
                   "`flt` flag; ASCII hosts/domains/attribute values only (str.lower = ASCII lower, int() on ASCII); the cookie's "
                   "path is the one ckey stores (Path attribute or '/'): RFC 6265's default-path is not part of the statement "
                   "and not modelled; where Python int() and the RFC grammar disagree about a Max-Age value ('+0', '1_0') the "
@@ -149,7 +160,8 @@ class Check(PropertyCheck):
             "attributes without a value; duplicate attributes) and requests (related/unrelated hosts, ports, paths with and without query / percent-"
             "encoding / params, filter matching or not); on both, the Host header, HTTP/2 :authority, server-connection "
             "address, SNI and scheme are absent, equal to the destination or name a different related/unrelated host and "
-            "port (the oracle and the model always take the destination request.host / request.port), or a single (host, domain) / (request path, cookie path) pair from the exhaustive universe; "
+            "port (the oracle and the model always take the destination request.host / request.port), or a single (host, domain) / (request path, cookie path) pair from the exhaustive universe, or an int() string, or a "
+            "header-text history (kind hdr: raw Set-Cookie texts incl. value-less names and quoted values); "
             "distinct = distinct case; non-trivial = some request got a cookie attached, or a pair case.")
     budget = {"quick": 2500, "thorough": 50000}
     time_budget = {"quick": 8, "thorough": 200}
@@ -264,6 +276,11 @@ class Check(PropertyCheck):
         for a in HOSTS + ["", ".example.com", "EXAMPLE.COM.", ".3.4", "a:b.example.com"]:
             for b in doms + ["x.example.com.evil.org", "EXAMPLE.com"]:
                 yield {"dm": [a, b]}
+        # header-text histories (kind "hdr"): cookie names without "=value", quoted / special values, several cookies per header
+        for hset in (HDR_TEXTS[i:i + 3] for i in range(0, len(HDR_TEXTS), 3)):
+            evs = [{"t": "resp", "host": "example.com", "port": 80, "headers": list(hset)}]
+            evs += [{"t": "req", "m": "GET", "host": "example.com", "port": 80, "path": p} for p in ("/", "/x/y")]
+            yield {"hdr": evs}
         for v in ["0", "-5", " 7 ", "+3", "1_0", "1.5", "", "abc", "0x10", "--1", "1__0", "_1", "1_", "007", "-0", "+", "-", "1 0",
                   "\t12\n", "9" * 25, "1_2_3", "+-1", "1e3", "\x1f5", "5\x0b"]:
             yield {"int": v}
@@ -322,6 +339,16 @@ class Check(PropertyCheck):
             if rng.chance(0.04):
                 al = "ab.E:1/"
                 yield {"dm": ["".join(rng.pick(al) for _ in range(rng.randint(0, 8))), "".join(rng.pick(al) for _ in range(rng.randint(0, 5)))]}
+            elif rng.chance(0.06):
+                evs = []
+                for _ in range(rng.randint(2, 8)):
+                    if rng.chance(0.5):
+                        evs.append({"t": "resp", "host": rng.pick(["example.com", "sub.example.com"]), "port": 80,
+                                    "headers": [rng.pick(HDR_TEXTS) for _ in range(rng.randint(1, 3))]})
+                    else:
+                        evs.append({"t": "req", "m": "GET", "host": rng.pick(["example.com", "sub.example.com"]), "port": 80,
+                                    "path": rng.pick(["/", "/x", "/x/y", "/foo"])})
+                yield {"hdr": evs}
             elif rng.chance(0.02):
                 yield {"int": "".join(rng.pick("01_+- 9a") for _ in range(rng.randint(0, 6)))}
             elif rng.chance(0.04):
@@ -341,6 +368,8 @@ class Check(PropertyCheck):
                 return {"int": str(int(case["int"]))}
             except ValueError:
                 return {"int": "err"}
+        if "hdr" in case:
+            case = {"evs": case["hdr"]}
         sc = stickycookie.StickyCookie()
         out = []
         saved_time = mcookies.time
@@ -357,13 +386,15 @@ class Check(PropertyCheck):
                 if ev["t"] == "resp":
                     f = self._flow(ev, True)
                     f.response.headers.pop("set-cookie", None)
-                    for c in ev["cookies"]:
+                    for text in ev.get("headers", ()):            # kind "hdr": the header text itself is the input
+                        f.response.headers.add("Set-Cookie", text)
+                    for c in ev.get("cookies", ()):
                         f.response.headers.add("Set-Cookie", self._header(c))
                     # what the real parser + is_expired say about each cookie (the model predicts these flags)
                     parsed = list(f.response.cookies.items(multi=True))
                     flags = [int(bool(mcookies.is_expired(attrs))) for _, (_, attrs) in parsed]
                     got = [[n, v, [[k, a] for k, a in attrs.fields]] for n, (v, attrs) in parsed]
-                    want = [[c["name"], c["value"], [list(a) for a in c["attrs"]]] for c in ev["cookies"]]
+                    want = got if "headers" in ev else [[c["name"], c["value"], [list(a) for a in c["attrs"]]] for c in ev["cookies"]]
                     r = {}
                     try:
                         sc.response(f)
@@ -381,7 +412,7 @@ class Check(PropertyCheck):
                         r["raised"] = type(e).__name__
                     out.append({"cookie": f.request.headers.get("cookie"), **r})
             sv = lambda x: x if isinstance(x, str) else f"<{x!r}>"      # a non-string key part (None) is shown, never hidden
-            jar = [[sv(k[0]), k[1], sv(k[2]), [[n, sv(v)] for n, v in d.items()]] for k, d in sc.jar.items()]
+            jar = [[sv(k[0]), k[1], sv(k[2]), [[n, v if v is None else sv(v)] for n, v in d.items()]] for k, d in sc.jar.items()]
         return {"evs": out, "jar": jar}
 
     # ---- the property over what the addon did -------------------------------------------------
@@ -445,6 +476,8 @@ class Check(PropertyCheck):
         if "pm" in case:
             return [f"path_match{tuple(case['pm'])} is true, RFC 6265 §5.1.4 says no"] if obs["pm"] and not pm6265(*case["pm"]) else []
         if "int" in case: return []
+        if "hdr" in case:    # transcription tie for the tokenizer / formatter path; only a raising hook is judged here
+            return [f"event {i}: the hook raised {r['raised']}" for i, r in enumerate(obs["evs"]) if "raised" in r][:3]
         sets = self._sets(case)
         fails = [f"event {i}: the {ev['t']} hook raised {r['raised']}" for i, (ev, r) in enumerate(zip(case["evs"], obs["evs"]))
                  if "raised" in r]
@@ -563,6 +596,21 @@ class Check(PropertyCheck):
         if "dm" in case: return [f"dm {hs(case['dm'][0])} {hs(case['dm'][1])}"]
         if "pm" in case: return [f"pm {hs(case['pm'][0])} {hs(case['pm'][1])}"]
         if "int" in case: return [f"int {hs(case['int'])}"]
+        if "hdr" in case:
+            lines = ["reset"]
+            for ev in case["hdr"]:
+                if ev["t"] == "resp":
+                    table = {}
+                    for text in ev["headers"]:      # email.utils' verdict for every Expires value occurring in the texts
+                        for _, _, attrs in mcookies.parse_set_cookie_header(text):
+                            v = attrs["expires"] if "expires" in attrs else None
+                            e = email.utils.parsedate_tz(v) if v else None
+                            if e: table[v] = email.utils.mktime_tz(e)
+                    lines.append(f"hresp {NOW} {hs(ev['host'])} {ev['port']} " + (",".join(hs(t) for t in ev["headers"]) or "_")
+                                 + " " + (",".join(f"{hs(v)}={ts}" for v, ts in table.items()) or "_"))
+                else:
+                    lines.append(f"req 1 {hs(ev['host'])} {ev['port']} {hs(ev['path'])}")
+            return lines + ["dump"]
         lines = ["reset"]
         for ev in case["evs"]:
             if ev["t"] == "resp":
@@ -596,7 +644,8 @@ class Check(PropertyCheck):
             elif "parsed" in r: evs.append("parsed-differently " + json.dumps(r["parsed"]))
             elif "njar" in r: evs.append(f"ok {r['njar']} " + (",".join(map(str, r["expired"])) or "_"))
             else: evs.append("none" if r["cookie"] is None else hs(r["cookie"]))
-        jar = " ".join(f"{hs(d)}:{p}:{hs(pa)}=" + (";".join(f"{hs(n)}:{hs(v)}" for n, v in cs) or "_") for d, p, pa, cs in obs["jar"]) or "_"
+        jar = " ".join(f"{hs(d)}:{p}:{hs(pa)}=" + (";".join(f"{hs(n)}:{'none' if v is None else hs(v)}" for n, v in cs) or "_")
+                       for d, p, pa, cs in obs["jar"]) or "_"
         return {"evs": evs, "jar": jar}
 
     def classify(self, case, obs):
@@ -604,6 +653,7 @@ class Check(PropertyCheck):
         if "dm" in case: return ("dm",) + tuple(case["dm"])
         if "pm" in case: return ("pm",) + tuple(case["pm"])
         if "int" in case: return ("int", case["int"])
+        if "hdr" in case: return ("hdr", hash(str(case["hdr"])))
         if not any(r.get("cookie") for r in obs["evs"]): return None
         return hash(str(case["evs"]))
 
@@ -612,6 +662,9 @@ class Check(PropertyCheck):
         if "dm" in case: return [f"dm:{int(obs['dm'])}/rfc:{int(dm6265(*case['dm']))}"]
         if "pm" in case: return [f"pm:{int(obs['pm'])}/rfc:{int(pm6265(*case['pm']))}"]
         if "int" in case: return ["int:" + ("err" if obs["int"] == "err" else "ok")]
+        if "hdr" in case:
+            return sorted({"hdr"} | {"hdr:valueless-name" for _, _, _, cs in obs["jar"] for _, v in cs if v is None}
+                          | {"hdr:quoted-on-request" for r in obs["evs"] if r.get("cookie") and '"' in r["cookie"]})
         out = []
         sets = self._sets(case)
         stored = {v for _, _, _, cs in obs["jar"] for _, v in cs}
